@@ -200,7 +200,7 @@ theorem studentsT_skewness_none_pin (h : d.f_freedom ≤ 3) : StudentsT.skewness
 theorem studentsT_entropy_pin [SF ℝ] :
     StudentsT.entropy d = some (Moments.StudentsT.entropy d.f_scale d.f_freedom) := by
   unfold StudentsT.entropy Moments.StudentsT.entropy Moments.StudentsT.entropyStd; rfun_norm
-  simp only [Option.some.injEq]; norm_num
+  simp only [Bool.false_eq_true, if_false, Option.some.injEq]; norm_num
 
 /-- the same pin in "standard entropy + shift" form -/
 theorem studentsT_entropy_shift_pin [SF ℝ] :
@@ -214,6 +214,15 @@ theorem studentsT_entropy_pin_instance [SF ℝ] :
   studentsT_entropy_pin _
 
 example : ∃ d : StudentsT ℝ, 0 < d.f_scale ∧ 3 < d.f_freedom := ⟨⟨0, 1, 4⟩, by norm_num⟩
+
+/-- `ν = ∞` (unreachable over ℝ, so stated for EVERY carrier, in particular IEEE `Float`): after the
+    source fix `entropy` returns the Normal entropy `ln σ + ln √(2πe)`, the limit of `h(t_ν) + ln σ`
+    (it used to evaluate `∞·(ψ(∞) − ψ(∞)) + …` = NaN). -/
+theorem studentsT_entropy_inf_pin {α : Type} [Add α] [Sub α] [Mul α] [Div α] [Neg α] [LT α] [LE α]
+    [BEq α] [DecidableLT α] [DecidableLE α] [OfScientific α] [Inhabited α] [RFun α] [SF α]
+    (d : StudentsT α) (hinf : RFun.isInf d.f_freedom = true) :
+    StudentsT.entropy d = some (RFun.ln d.f_scale + (RFun.c_LN_SQRT_2PIE : α)) := by
+  unfold StudentsT.entropy; rw [if_pos hinf]
 end studentsT
 
 /-! ### Triangular(a, b, c) -/
